@@ -599,7 +599,7 @@ var _ = errors.New
 func init() {
 	register(&Check{
 		ID: "C18", Level: "exploration", Run: c18Run,
-		Runs:       [2]int{40000, 1000000},
+		Runs:       [2]int{40000, 10000000},
 		MaxSeconds: [2]int{90, 1500},
 		Rule: "one run = one request through http.WrapHandler with three simulated parties: client (POST body of size around 0, L-1, L, L+1, 2L for a drawn request limit L in 8..64, in-memory limit M<=L so larger bodies spill to the simulated disk, known or unknown Content-Length, chunk script incl. (0,nil) reads, 1/10 failing mid-stream), " +
 			"handler script (0-3 reads of all / part of the body, headers, optional 103, optional WriteHeader 200/201/404/500/204/304/302, body written in arbitrary chunks via Write or ReadFrom with interleaved Flush, superfluous WriteHeader), downstream ResponseWriter stub implementing the documented net/http contract (with / without Flusher and ReaderFrom, 1/10 failing at byte k). " +
